@@ -8,7 +8,7 @@
     paths without ".//" and exactness of ".//" + one step, which are not proved unboundedly).  No theorem relates the
     whole-document run_doc to doc_viols (T10_scope): see checks/meta/C10.json. *)
 From Coq Require Import NArith List Bool Arith.
-From XV Require Import C10.Spec10 C10.Model10 C10.Values10 C10.Proofs10a C10.Proofs10b C10.Proofs10c C10.Proofs10d C10.Proofs10e C10.Proofs10f C10.Proofs10g.
+From XV Require Import C10.Spec10 C10.Model10 C10.Values10 C10.Proofs10a C10.Proofs10b C10.Proofs10c C10.Proofs10d C10.Proofs10e C10.Proofs10f C10.Proofs10g C10.Proofs10h C10.Parse10 C10.Proofs10i.
 Import ListNotations.
 
 (** *** T10_store: duplicate detection of the value store = clause 4.1 / 4.2.2, for any value type whose equality
@@ -226,4 +226,124 @@ Example gate_off_reports_nothing :
                                                               Node 1%N [(0%N, value_of [] TStr [97%N])] false false (value_of [] TNone []) []] in
   let sch := [(0%N, mkIC KKey 0 9999 [mkSpath false [NTName 1] None] [[mkSpath false [] (Some (NTName 0))]])] in
   model_doc false false false sch dup = [] /\ model_doc false false true sch dup = [E_DuplicateKey] /\ spec_doc sch dup = [V_DupKey].
+Proof. vm_compute. auto. Qed.
+
+(** *** multi-field key-sequences: one value scope of ValueStore (startValueScope, addValue per field in ANY document order
+    of the field nodes, endValueScope).  [fv] gives per field the value of its single node or None (absent);
+    [ord] is the order in which the present fields are handed over. *)
+
+(** general form: fValues ends up as [fv]; the table is consulted and extended exactly once, by the completing field, and
+    only when every field is present; all other addValue calls report nothing *)
+Theorem T10_scope_tuple : forall (V : Type) (veq : V -> V -> bool) (vhash : V -> list N) (fv : otuple V) ord T ic,
+  NoDup ord -> (forall f, In f ord <-> exists v, nth_error fv f = Some (Some v)) ->
+  let complete := (0 <? length ord) && (length ord =? length fv) in
+  adds_run V veq vhash ord fv (mkVS V ic (repeat None (length fv)) 0 T) =
+  Some (mkVS V ic fv (length ord) (if complete then put_tupleH V veq vhash fv T else T),
+        expected_flags (length ord) (if complete then containsH V veq vhash T fv else false)).
+Proof. exact scope_run_spec. Qed.
+Print Assumptions T10_scope_tuple.
+
+(** every field present (any number of fields, any order): one lookup of the whole tuple, then it is stored *)
+Theorem T10_scope_complete : forall (V : Type) (veq : V -> V -> bool) (vhash : V -> list N) (tu : list V) ord T ic,
+  tu <> [] -> NoDup ord -> (forall f, In f ord <-> f < length tu) ->
+  adds_run V veq vhash ord (map Some tu) (mkVS V ic (repeat None (length tu)) 0 T) =
+  Some (mkVS V ic (map Some tu) (length tu) (put_tupleH V veq vhash (map Some tu) T),
+        repeat false (length tu - 1) ++ [containsH V veq vhash T (map Some tu)]).
+Proof. exact scope_complete. Qed.
+Print Assumptions T10_scope_complete.
+
+(** some field absent: nothing is looked up or stored (a unique with an absent field is not in the qualified node set) and
+    fewer values than fields are counted -- which is what endValueScope turns into IC_AbsentKeyValue /
+    IC_KeyNotEnoughValues for a key (T10_scope_end) *)
+Theorem T10_scope_incomplete : forall (V : Type) (veq : V -> V -> bool) (vhash : V -> list N) (fv : otuple V) ord T ic a,
+  nth_error fv a = Some None ->
+  NoDup ord -> (forall f, In f ord <-> exists v, nth_error fv f = Some (Some v)) ->
+  adds_run V veq vhash ord fv (mkVS V ic (repeat None (length fv)) 0 T) =
+  Some (mkVS V ic fv (length ord) T, expected_flags (length ord) false) /\ length ord < length fv.
+Proof. exact scope_incomplete. Qed.
+Print Assumptions T10_scope_incomplete.
+
+Theorem T10_scope_end : forall (V : Type) (report : bool) (ics : list mic) icx depth sid (s : st V),
+  lookup2 icx depth (s_ic2vs V s) = Some sid ->
+  s_errs V (end_value_scope V report ics icx depth s) =
+  (if report then rev (end_scope_codes (m_k (ic_at ics icx)) (vs_count V (store_at V s sid))
+                                       (length (m_flds (ic_at ics icx)))) else []) ++ s_errs V s.
+Proof. exact end_value_scope_spec. Qed.
+Print Assumptions T10_scope_end.
+Theorem T10_scope_end_codes :
+  (forall n, 0 < n -> end_scope_codes KKey n n = []) /\
+  (forall c n, c < n -> exists e, end_scope_codes KKey c n = [e]) /\
+  (forall c n, end_scope_codes KUnique c n = [] /\ end_scope_codes KKeyRef c n = []).
+Proof. split; [exact end_scope_key_complete|split; [exact end_scope_key_incomplete|exact end_scope_unique]]. Qed.
+Example scope_examples :
+  (* two fields handed over in reverse order; second node repeats the tuple: reported by the completing field only *)
+  adds_run nat Nat.eqb (fun _ => []) [1; 0] [Some 7; Some 8] (mkVS nat 0 [None; None] 0 [[Some 7; Some 8]])
+  = Some (mkVS nat 0 [Some 7; Some 8] 2 [[Some 7; Some 8]], [false; true]) /\
+  adds_run nat Nat.eqb (fun _ => []) [1] [None; Some 8] (mkVS nat 0 [None; None] 0 [[Some 7; Some 8]])
+  = Some (mkVS nat 0 [None; Some 8] 1 [[Some 7; Some 8]], [false]) /\
+  end_scope_codes KKey 1 2 = [E_KeyNotEnoughValues] /\ end_scope_codes KKey 0 2 = [E_AbsentKeyValue].
+Proof. vm_compute. auto. Qed.
+
+(** *** key tables handed upwards (ValueStore::append in ValueStoreCache::transplant / ::endElement): the merged table
+    is the union of both tables modulo value equality -- nothing lost, nothing invented.  (Structures 3.11.5 additionally
+    DROPS key-sequences that occur in two child scopes: the union keeps them, which is finding F29, T10_cache_merge_refuted.) *)
+Theorem T10_cache_merge_union : forall (V : Type) (veq : V -> V -> bool),
+  (forall x y, veq x y = veq y x) -> (forall x y z, veq x y = true -> veq y z = true -> veq x z = true) ->
+  forall vhash : V -> list N, (forall x y, veq x y = true -> vhash x = vhash y) ->
+  forall src dst x,
+  containsH V veq vhash (append_tuples V veq vhash dst src) x = true <->
+  containsH V veq vhash dst x = true \/ containsH V veq vhash src x = true.
+Proof. exact append_union. Qed.
+Print Assumptions T10_cache_merge_union.
+(** F29 on the model of the whole document: key 'a' in two child scopes, keyref on the ancestor accepted; the specification
+    demands the violation *)
+Definition f29_leaf (nm : N) : tree cval := Node nm [] true false (value_of [] TStr [97%N]) [].
+Definition f29_tree : tree cval :=
+  let e := value_of [] TNone [] in
+  Node 0%N [] false false e [Node 1%N [] false false e [f29_leaf 100]; Node 1%N [] false false e [f29_leaf 100]; f29_leaf 101].
+Definition f29_schema : schema :=
+  [(1%N, mkIC KKey 0 9999 [mkSpath false [NTName 100] None] [[mkSpath false [] None]]);
+   (0%N, mkIC KKeyRef 1 0 [mkSpath false [NTName 101] None] [[mkSpath false [] None]])].
+Theorem T10_cache_merge_refuted :
+  model_doc false false true f29_schema f29_tree = [] /\ spec_doc f29_schema f29_tree = [V_KeyRefNotFound].
+Proof. vm_compute. auto. Qed.
+Print Assumptions T10_cache_merge_refuted.
+
+(** *** the XPath reader (XPathScanner::scanExpression + XercesXPath::parseExpression, Parse10.v) *)
+(** what the model needs of the tables regenerated from XercesXPath.cpp / XMLChar.cpp on every run *)
+Theorem T10_xpath_tables : tables_ok = true.
+Proof. exact xp_tables_ok. Qed.
+Print Assumptions T10_xpath_tables.
+
+(** token level, all expressions of the grammar (any number of union members, steps, '.', '*', NCName:*, QNames, child:: /
+    attribute:: / '@', leading './/'): parseExpression raises no error and yields exactly the location paths denoted, given
+    that the prefixes are declared -- for the repaired reader (fxns = true) unconditionally, for the code as written outside
+    the class of F35 (first step NCName:* followed by a further step).  PARTIAL: the character level (scanExpression produces
+    xpath_toks from xpath_text for every placement of white space) is covered by the correspondence, not by a theorem. *)
+Theorem T10_xpath_parse_partial : forall (bound : list N -> bool) (fxns : bool) (l : list apath) paths0 i0,
+  l <> [] -> forallb (apath_wf bound) l = true -> (fxns = false -> forallb (fun p => negb (ns_first p)) l = true) ->
+  parse bound fxns (xpath_toks l) i0 true [] paths0 = POk (fold_left add_path (map expect_path l) paths0).
+Proof. exact parse_grammar. Qed.
+Print Assumptions T10_xpath_parse_partial.
+Example xpath_parse_nontrivial :
+  let b := f35_bound in
+  let l := [mkAP true [AChild true (ANName (Some [116%N]) [97%N]); ASelf; AAttr false ANAny];
+            mkAP false [ASelf; AChild false ANAny]; mkAP false [AChild false ANAny]] in
+  forallb (apath_wf b) l = true /\ forallb (fun p => negb (ns_first p)) l = true /\
+  xpath_of_string b false false (xpath_text [32%N; 9%N] l) = POk (expect_xpath l) /\ length (expect_xpath l) = 2.
+Proof. vm_compute. auto. Qed.
+
+(** F35: the code as written rejects the grammatical selector  t:*/a  (XPath_NoSelectionOfRoot); the repaired reader reads it *)
+Theorem T10_xpath_parse_refuted :
+  forallb (apath_wf f35_bound) f35_xpath = true /\
+  parse f35_bound false (xpath_toks f35_xpath) true true [] [] = PErr X_NoSelectionOfRoot /\
+  xpath_of_string f35_bound false true (xpath_text [] f35_xpath) = PErr X_NoSelectionOfRoot /\
+  xpath_of_string f35_bound true true (xpath_text [32%N] f35_xpath) = POk (expect_xpath f35_xpath).
+Proof. exact f35_refuted. Qed.
+Print Assumptions T10_xpath_parse_refuted.
+(** the reader is lenient outside the grammar: a period followed by white space and a name is silently dropped (". a" is read
+    as "a"), and an attribute step may be followed by further steps ("@a/b") *)
+Example xpath_reader_lenient :
+  xpath_of_string f35_bound false false [46; 32; 97]%N = POk [[XSelf; XChild (XNName None [97%N])]] /\
+  xpath_of_string f35_bound false false [64; 97; 47; 98]%N = POk [[XSelf; XAttr (XNName None [97%N]); XChild (XNName None [98%N])]].
 Proof. vm_compute. auto. Qed.
